@@ -280,7 +280,10 @@ def decide(ctx: Ctx, cases):
             if en.endswith("+moved"):
                 i, dx, dy = c["move"]
                 mods[i] = [mods[i][0], [[r[0] + dx, r[1] + dy, r[2] + dx, r[3] + dy] for r in mods[i][1]]]
-            tr = {"zero": c["zero"], "mods": mods, "exact": int(base_en in EXACT), **t}
+            # after an in-place move the rectangles sit where recenter_rectangles put them: current centroid (an area-weighted
+            # mean, a rounded quotient even on integer coordinates) plus the displacement -- not exact under any embedding,
+            # so a module that ends up TOUCHING a cell may be listed there with a ratio of 1e-17 (seed-3 false alarm)
+            tr = {"zero": c["zero"], "mods": mods, "exact": int(base_en in EXACT and not en.endswith("+moved")), **t}
             key = digest(tr)
             if key not in traces:
                 tr["id"] = key
